@@ -278,6 +278,7 @@ type c19Report struct {
 	Events    int               `json:"events"`
 	Plain     string            `json:"plain_result"`
 	Transp    []string          `json:"transparency,omitempty"` // failures of the non-script runs
+	DepthBad  string            `json:"depth_bad,omitempty"`    // one activation reporting two call depths
 	Scripts   []c19ScriptReport `json:"scripts"`
 	T         []string          `json:"t,omitempty"`
 }
@@ -382,6 +383,17 @@ func c19DoProgram(src string, scripts []c19Script, keepObs bool) *c19Report {
 			rep.DupKeys++
 		}
 		seen[key] = true
+	}
+	// every statement of one function activation runs at the call depth of that activation, also inside nested
+	// blocks that have frames of their own: the stop rules of next/finish compare exactly this number
+	frameDepth := map[int]int{}
+	for _, s := range T {
+		if d, ok := frameDepth[s.Frame]; ok && d != s.Depth && rep.DepthBad == "" {
+			rep.DepthBad = fmt.Sprintf("stops of one function activation (frame %d) report call depth %d and %d (second at %s)", s.Frame, d, s.Depth, s.Pos)
+		}
+		if _, ok := frameDepth[s.Frame]; !ok {
+			frameDepth[s.Frame] = s.Depth
+		}
 	}
 	if keepObs {
 		for _, s := range T {
@@ -607,6 +619,10 @@ func checkC19(r *fw.Run) {
 		}
 		if len(rep.Transp) > 0 {
 			continue
+		}
+		if rep.DepthBad != "" {
+			r.Eval(1)
+			r.Violation("activation-depth", c19Replay{Src: src, What: rep.DepthBad}, rep.DepthBad+"\n"+src)
 		}
 		usable++
 		r.Eval(2) // nodebug and all-step transparency comparisons
